@@ -278,7 +278,7 @@ func ruleLoop(p *Program, r *Result, parts string) {
 					r.undecided("R-LOOP", ek, p.Pos(h.Pos()), "Handle invoke with unexpected arity")
 					continue
 				}
-				respAlloc, _ := stripConv(args[0]).(*ssa.Alloc)
+				respAlloc, _ := canonObject(stripConv(args[0])).(*ssa.Alloc)
 				if respAlloc == nil {
 					r.bad("R-LOOP", ek, p.Pos(h.Pos()), "the response passed to Handle is not a fresh allocation of the loop body")
 					continue
@@ -331,7 +331,7 @@ func ruleLoop(p *Program, r *Result, parts string) {
 					r.undecided("R-LOOP", ek, p.Pos(h.Pos()), "Handle invoke with unexpected arity")
 					continue
 				}
-				V := stripConv(args[0])
+				V := canonObject(stripConv(args[0]))
 				nStores, good := 0, false
 				for _, b := range L.Blocks {
 					for _, in := range b.Instrs {
@@ -340,7 +340,7 @@ func ruleLoop(p *Program, r *Result, parts string) {
 							continue
 						}
 						fa, ok := st.Addr.(*ssa.FieldAddr)
-						if !ok || fa.X != V {
+						if !ok || canonObject(fa.X) != V {
 							continue
 						}
 						f, _, _ := fieldAddrOf(fa)
